@@ -1,7 +1,11 @@
-"""Property id -> check function(tier) -> exit code."""
-from . import runlevel
+"""Property id -> check function(tier) -> exit code; replay kinds."""
+from . import runlevel, c06, c10, c16
 
 CHECKS = {}
 for _p in runlevel.CFG:
     CHECKS[_p] = (lambda p: (lambda tier: runlevel.main(p, tier)))(_p)
-REPLAYERS = {}
+CHECKS["C06"] = c06.main
+CHECKS["C10"] = c10.main
+CHECKS["C16"] = c16.main
+
+REPLAYERS = {"c06panel": c06.replay_panel, "c10case": c10.replay, "c16case": c16.replay}
